@@ -480,6 +480,10 @@ func c04CheckE2E(c c04E2ECase) engine.Result {
 				p := (*packet.Packet)(af)
 				var wantP, wantO uint64
 				ok := true
+				// (the three indicator flags in every combination, rotating with the value: where a clock sits depends on
+				// the presence flags of the clocks only)
+				ind := int(c.V % 8)
+				ok = af.SetDiscontinuity(ind&4 != 0) == nil && af.SetRandomAccess(ind&2 != 0) == nil && af.SetElementaryStreamPriority(ind&1 != 0) == nil
 				if c.Kind != "af-opcr" {
 					ok = ok && af.SetHasPCR(true) == nil && af.SetPCR(c.V) == nil
 					wantP = c.V
@@ -499,10 +503,16 @@ func c04CheckE2E(c c04E2ECase) engine.Result {
 						if got, err := af.PCR(); err != nil || got != wantP {
 							res.Failf("PCR|read-back-after-"+step, "PCR %d reads back %d (err %v)", wantP, got, err)
 						}
+						if b, err := adaptationfield.PCR(p); err != nil || gots.ExtractPCR(b) != wantP {
+							res.Failf("adaptationfield.PCR|read-back-after-"+step, "indicator flags %03b: PCR %d reads back % x (err %v)", ind, wantP, b, err)
+						}
 					}
 					if c.Kind != "af-pcr" {
 						if got, err := af.OPCR(); err != nil || got != wantO {
 							res.Failf("OPCR|read-back-after-"+step, "OPCR %d reads back %d (err %v)", wantO, got, err)
+						}
+						if b, err := adaptationfield.OPCR(p); err != nil || gots.ExtractPCR(b) != wantO {
+							res.Failf("adaptationfield.OPCR|read-back-after-"+step, "indicator flags %03b: OPCR %d reads back % x (err %v)", ind, wantO, b, err)
 						}
 					}
 				}
